@@ -32,6 +32,10 @@ def sweep(tier="quick", seed=0, unsupported=()):
 
 
 def replay(contract, label, model, note=""):
+    if contract.startswith("Conv2D.layouts"):
+        from . import connections as _cx
+
+        return _cx.replay_layouts(model)
     f, n = tr.sweep_c09("quick", 0)
     f8, n8 = tr.sweep_c08("quick", 0)
     want = contract.split(".")[0].split("[")[0]
